@@ -28,14 +28,20 @@ def run(ctx, res):
     else:
         route = "monkeypatch"
     env["VERIF_C17_ROUTE"] = route
-    p = subprocess.run([sys.executable, "-m", "harness.props.C17_worker"], env=env, cwd=common.VERIF, capture_output=True)
-    if p.returncode != 0:
-        raise RuntimeError("C17 worker failed:\n" + p.stderr.decode()[-3000:])
-    part = pickle.loads(p.stdout)
     from .. import corr
-    corr.merge(res, [part])
+    # the verifying process's time zone is not an input of the API: the same instants are judged in UTC and in zones
+    # behind and ahead of it (POSIX TZ strings, no tzdata needed: "VRF8" = UTC-8, "VRF-9" = UTC+9)
+    parts = []
+    for tz in ("UTC0", "VRF8", "VRF-9"):
+        env_tz = dict(env, TZ=tz, VERIF_C17_PART="full" if tz == "UTC0" else "chain")
+        p = subprocess.run([sys.executable, "-m", "harness.props.C17_worker"], env=env_tz, cwd=common.VERIF, capture_output=True)
+        if p.returncode != 0:
+            raise RuntimeError(f"C17 worker (TZ={tz}) failed:\n" + p.stderr.decode()[-3000:])
+        parts.append(pickle.loads(p.stdout))
+    corr.merge(res, parts)
+    res.extra["time_zones"] = ["UTC0", "VRF8 (UTC-8)", "VRF-9 (UTC+9)"]
     res.extra["clock_route"] = route
-    res.rule = ("real code and model under a controlled clock: packed+x5c chain (leaf, intermediate, root validity windows chosen by the "
+    res.rule = ("real code and model under a controlled clock, in processes running in UTC, UTC-8 and UTC+9: packed+x5c chain (leaf, intermediate, root validity windows chosen by the "
                 "CA simulator) verified at clock offsets dense (1 s) around each notBefore/notAfter and sparse elsewhere; SafetyNet "
                 "timestampMs at 1 ms steps around the four window boundaries; sequences that move the clock between repeated "
                 "verifications of one response; the expected verdict is computed from the validity periods, not from OpenSSL; "
